@@ -643,7 +643,9 @@ class Parser:
                 flags |= self.RE_FLAG_MAP[flag]
         try:
             return RegexLiteral(value=re.compile(pattern, flags))
-        except re.error as err:
+        except (re.error, OverflowError, ValueError) as err:
+            # OverflowError: an oversized repetition count. ValueError: inline
+            # flags that conflict with the literal's flags.
             raise JSONPathSyntaxError(
                 f"invalid regular expression: {err}", token=stream.current
             ) from err
